@@ -28,6 +28,12 @@ def depfile_engine(tier, seed, wdir):
         cfg = "MC_Depfile_%s_%s.cfg" % (mode, "q" if tier == "quick" else "t")
         mc, vecs = D.tlc_vectors("depfile-" + mode, "Depfile.tla", cfg, workers=6)
         mcs.append(mc)
+        def real(x):
+            return x.replace("~A", "\u00c5").replace("~a", "\u00e0").replace("~g", "\u516c")
+        for v in vecs:
+            v["text"] = real(v["text"])
+            if "deps" in v:
+                v["deps"] = [real(d) for d in v["deps"]]
         s = D.run_vectors("depfile", vecs, wdir, "dep-" + mode)
         res.append((mode, {k: s[k] for k in ("n", "nbad", "counts")}))
         n += s["n"]
@@ -107,6 +113,10 @@ def manifest_engine_for(prop):
             for b in s["bad"]:
                 tag = b["kind"] + ("-" + b["field"] if b.get("field") else "")
                 viol.append(_viol(prop, tag, "manifest-" + fam, b))
+                if prop == "C10" and fam == "attrs" and b["kind"] == "field":
+                    # rule attributes are expanded with $in / $out / $in_newline / $out_newline,
+                    # build-block bindings and file scope: C11's rules as well
+                    viol.append(_viol("C11", tag, "manifest-" + fam, b))
                 if prop == "C11" and b["kind"] == "field":
                     # a mis-evaluated command, description or path is also "not the declared
                     # command / path of the step" (C10's statement)
